@@ -227,8 +227,13 @@ def oracle_c01(tables, seed, tier, deep):
                              "cfg": c.s(), "cli_flags": c.cli(), "input": cs.text, "output": t})
         if c.i:
             rem = get_path(cs.tree, ("attr", "remote"))
-            if isinstance(rem, str) and rem in t:
-                viol.append({"site": "leak:attr/remote", "detail": "client address survives with --redactIPs", "cfg": c.s(), "input": cs.text, "output": t})
+            if isinstance(rem, str):
+                try:
+                    got_rem = get_path(parse_json(t), ("attr", "remote"))
+                except Exception:
+                    got_rem = None
+                if got_rem != "255.255.255.255:65535":
+                    viol.append({"site": "leak:attr/remote", "detail": "client address %r comes out as %r with --redactIPs" % (rem, got_rem), "cfg": c.s(), "cli_flags": c.cli(), "input": cs.text, "output": t})
     return result(viol, len(pairs), planted, "grammar-generated lines with a unique token planted in every sensitive literal; evaluations = (line, flag set) pairs; distinct_nontrivial = planted sensitive literals checked for absence from the whole output line",
                   dist, [pairs[1][0].text[:400]] if len(pairs) > 1 else [])
 
@@ -413,6 +418,12 @@ def hostile_lines(tables, seed, n):
                 key = "filter" if kind == "query" else "pipeline"
                 v = tree if kind == "query" else [tree]
                 out.append(to_json(Obj([("c", "COMMAND"), ("attr", Obj([("ns", "a.b"), ("command", Obj([(key, v)]))]))])).encode())
+    # plan summaries of every odd shape (they are rewritten under --redactFieldNames): entries without a colon, empty entries,
+    # several colons, unbalanced braces, non-string values
+    for plan in ['"IXSCAN { foo }"', '"IXSCAN { foo: 1, }"', '"IXSCAN { , }"', '"IXSCAN { : }"', '"IXSCAN { a:b:c }"', '"IXSCAN {"', '"IXSCAN }"', '"IXSCAN { a: 1"', '"IXSCAN {}"', '"IXSCAN { }"',
+                 '"IXSCAN { a: 1 } }"', '"IXSCAN { { a: 1 } }"', '"IXSCAN"', '""', '" "', '"IXSCAN { a: }"', '"IXSCAN { : 1 }"', '"IXSCAN { a 1 }"', '"IXSCAN { a: 1,, b: 1 }"', '"{ a: 1 }"',
+                 '"IXSCAN { \\u0000: 1 }"', '"IXSCAN { a: 1 }, IXSCAN { b }"', '5', 'null', '[]', '{}', '["IXSCAN { a: 1 }"]', '{"IXSCAN":{"a":1}}', 'true']:
+        out.append(('{"c":"COMMAND","msg":"Slow query","attr":{"ns":"a.b","command":{"find":"b","filter":{"a":1}},"planSummary":%s}}' % plan).encode())
     for w in ("$date", "$oid"):
         for v in ("1", "null", "true", "[]", "{}", '{"$numberLong":"1"}', '["x"]'):
             out.append(('{"c":"QUERY","attr":{"command":{"filter":{"a":{"%s":%s}},"pipeline":[{"$match":{"a":{"%s":%s}}},{"$search":{"equals":{"path":"p","value":{"%s":%s}}}}]}}}' % (w, v, w, v, w, v)).encode())
@@ -437,6 +448,10 @@ def oracle_c07(tables, seed, tier, deep):
         for j in range(2):
             c = cfgs[(i + j) % len(cfgs)]
             ops.append(("%d.%d" % (i, j), ["line", c.s(), hx(b)], b, c))
+        if b'"planSummary"' in b or b'"remote"' in b:
+            # attributes that only some flags touch: under those flags too
+            for j, c in enumerate([Cfg(eager=("",)), Cfg(eager=("a",), i=True, w=True)]):
+                ops.append(("%d.p%d" % (i, j), ["line", c.s(), hx(b)], b, c))
     res = go_exec([(o[0], o[1]) for o in ops])
     viol = []
     dist = collections.Counter()
@@ -534,6 +549,9 @@ def panics_of_correspondence(diffs):
             c = cfg_of_string(f[1])
             if f[0] == "line":
                 b = unhxb(f[2])
+            elif f[0] == "planredact":
+                c.eager = ("d",)
+                b = to_json(Obj([("c", "COMMAND"), ("msg", "Slow query"), ("attr", Obj([("ns", "d.c"), ("command", Obj([("find", "c"), ("filter", Obj([("a", Num("1"))])), ("$db", "d")])), ("planSummary", unhx(f[2]))]))])).encode()
             elif f[0] in ("stage", "query", "cmd"):
                 tree = dec(f[3])
                 if f[3 - 1] == "1" and not c.eager:
@@ -1004,6 +1022,12 @@ def mixed_lines(rng, n):
             out.append(rng.choice([b"not json at all", b"2024-05-01T12:00:00.000+0000 I NETWORK [conn] legacy", b"[1,2,3]", b'{"unterminated":', b'"str"', b"{} trailing"]))
         else:
             out.append(b'{"msg":"caf\xc3\xa9 \xe2\x82\xac","attr":{"v":[1.50,2e3,[[]]]}}')
+    # the same entry twice in a row, and again later: every occurrence is a line of its own
+    if out and rng.chance(1, 2):
+        j = rng.below(len(out))
+        out.insert(j, out[j])
+        if rng.chance(1, 2):
+            out.append(out[j])
     return out
 
 
@@ -1063,9 +1087,19 @@ def oracle_c06(tables, seed, tier, deep):
             open(fplain, "wb").write(data)
             with gzip.open(fgz, "wb") as fh:
                 fh.write(data)
+            # the same text as a gzip file of several members (what `cat a.gz b.gz` or a rotating compressor produces),
+            # cut at line boundaries and, for the last cut, inside a line
+            fgzm = os.path.join(work, "in%dm.log.gz" % it)
+            nl = [i + 1 for i, b in enumerate(data) if b == 10]
+            cuts = sorted(set([nl[len(nl) // 3], nl[(2 * len(nl)) // 3] - (3 if it % 2 else 0)])) if len(nl) >= 3 else [len(data) // 2]
+            with open(fgzm, "wb") as fh:
+                prev = 0
+                for cpos in cuts + [len(data)]:
+                    fh.write(gzip.compress(data[prev:cpos]))
+                    prev = cpos
             got = {}
             for rep in range(2):
-                for ch_in in ("file", "gz", "stdin"):
+                for ch_in in ("file", "gz", "gzmulti", "stdin"):
                     for ch_out in ("stdout", "outfile"):
                         args = ["redact"] + cfg.cli()
                         stdin = None
@@ -1073,6 +1107,8 @@ def oracle_c06(tables, seed, tier, deep):
                             args.append(fplain)
                         elif ch_in == "gz":
                             args.append(fgz)
+                        elif ch_in == "gzmulti":
+                            args.append(fgzm)
                         else:
                             stdin = data
                         of = os.path.join(work, "out_%d_%s_%s_%d" % (it, ch_in, ch_out, rep))
@@ -1407,6 +1443,10 @@ def oracle_c09(tables, seed, tier, deep):
                   dist, [{"string": strs[5]}])
 
 
+def cmd_probe_line():
+    return '{"t":{"$date":"2024-01-01T00:00:00.000+00:00"},"s":"I","c":"COMMAND","id":51803,"ctx":"conn1","msg":"Slow query","attr":{"ns":"shop.orders","command":{"find":"orders","filter":{"customer":"alice","mail":"a@b.example"},"$db":"shop"}}}'
+
+
 def oracle_c10(tables, seed, tier, deep):
     big = tier == "thorough" or deep
     n = 1200 if big else 150
@@ -1491,6 +1531,36 @@ def oracle_c10(tables, seed, tier, deep):
     try:
         inp = os.path.join(work, "in.log")
         open(inp, "w", encoding="utf-8").write("\n".join(cs.text for cs, a, b, c in trip[:6] if "\n" not in cs.text) + "\n")
+        # "one key file": a run that FAILS part-way (an over-long line / a damaged gzip stream after the first lines) with a key
+        # path that does not exist yet, then a normal run with the same key path: the ciphertexts the failed run has already
+        # written must be under the key that the later run uses (equal plaintext -> equal ciphertext), and must decrypt with it
+        first = trip[0][0].text if "\n" not in trip[0][0].text else cmd_probe_line()
+        for kind_ in ("toolong", "gzcut"):
+            kp = os.path.join(work, "fresh-%s.key" % kind_)
+            if kind_ == "toolong":
+                f1 = os.path.join(work, "fail1.log")
+                open(f1, "wb").write(first.encode("utf-8") + b"\n" + b'{"x":"' + b"y" * 70000 + b'"}\n' + first.encode("utf-8") + b"\n")
+            else:
+                import gzip as _gz
+                f1 = os.path.join(work, "fail1.log.gz")
+                blob = _gz.compress((first + "\n").encode("utf-8") * 400)
+                open(f1, "wb").write(blob[: len(blob) - 9])
+            f2 = os.path.join(work, "ok2.log")
+            open(f2, "wb").write(first.encode("utf-8") + b"\n")
+            o1, o2 = os.path.join(work, "o1-" + kind_), os.path.join(work, "o2-" + kind_)
+            rc1, _, se1 = run_cli(["redact", f1, "-o", o1, "--encrypt", "--encryptionKeyFile", kp], cwd=work, timeout=60)
+            rc2, _, se2 = run_cli(["redact", f2, "-o", o2, "--encrypt", "--encryptionKeyFile", kp], cwd=work, timeout=60)
+            extra += 2
+            dist["failed-then-ok:%s:%d,%d" % (kind_, rc1, rc2)] += 1
+            b1 = open(o1, "rb").read() if os.path.exists(o1) else b""
+            b2 = open(o2, "rb").read() if os.path.exists(o2) else b""
+            l1 = b1.split(b"\n")[0] if b"\n" in b1 else b""
+            l2 = b2.split(b"\n")[0] if b"\n" in b2 else b""
+            if rc2 != 0:
+                viol.append({"site": "runs:second-run-failed", "detail": "after a failed first run (%s, exit %d) the second run with the same key path fails: %s" % (kind_, rc1, se2[-200:].decode("utf-8", "replace")), "cfg": "--encrypt", "input": first})
+            elif l1 and l1 != l2:
+                viol.append({"site": "runs:failed-run-other-key", "detail": "a run that failed part-way (%s, exit %d) had already written ciphertexts; the next run with the SAME key file path encrypts the same line differently (the failed run's key was not the one on disk)" % (kind_, rc1),
+                             "cfg": "--encrypt", "input": first, "output": l1[:300].decode("utf-8", "replace") + "  ||  " + l2[:300].decode("utf-8", "replace")})
         os.mkdir(os.path.join(work, "kd"))
         reg = os.path.join(work, "kd", "k.key")
         open(reg, "wb").write(base64.b64encode(HARNESS_KEY))
